@@ -15,6 +15,7 @@ GENERATORS = {
     'text': ('gen_text', ['TextTab.v']),
     'builder': ('gen_builder', ['BuilderTab.v']),
     'files': ('gen_files', ['FilesTab.v']),
+    'racelaps': ('gen_racelaps', ['RaceLapsTab.v']),
 }
 
 def write_if_changed(path, text):
